@@ -1,11 +1,65 @@
 """C03 — lexical scoping: closures capture where they were made, never the caller."""
-from . import refsem
+import json
+import os
+
+from . import common, refsem
+
+
+def scope_tie(c, model_exe):
+    """Correspondence of the scope MECHANISM: the real lookup structure (live scope stack, captured stacks,
+    parent chain; /repo/zygo/verif_c03.go) before every instruction that looks a name up or binds one must
+    equal the state of the extracted machine coq/Model/ScopeImpl.v replaying the scope events of the same run."""
+    rc, out, exe = common.build_go("c03scope")
+    if rc != 0:
+        if not os.path.exists(os.path.join(common.REPO, "zygo", "verif_c03.go")):
+            c.notes.append("scope-mechanism tie skipped: this tree has no zygo/verif_c03.go (accessor of the lookup structure)")
+            return 0
+        c.violation({"kind": "harness-build-failed (c03scope)", "log": out[-3000:]}, no_input=True, tag="build")
+        return 1
+    cases = os.path.join(common.BUILD, "C03scope.cases")
+    stats = os.path.join(common.BUILD, "C03scope.stats")
+    rc, out = common.sh([exe, "--seed", str(c.seed), "--tier", c.tier, "--out", cases, "--stats", stats],
+                        cwd=common.BUILD, timeout=900, env=common.env_go())
+    if rc != 0:
+        c.violation({"kind": "harness-crashed (c03scope)", "rc": rc, "log": out[-3000:]}, no_input=(rc == 124), tag="crash")
+        return 1
+    mout = os.path.join(common.BUILD, "C03scope.model")
+    rc, err = common.run_model(model_exe, cases, mout)
+    if rc != 0:
+        c.proof_break = c.proof_break or {"kind": "model-runner-failed (scope replay)", "log": err}
+        return 0
+    n, bad, ex = 0, 0, []
+    with open(cases) as f, open(mout) as g:
+        for lc, lm in zip(f, g):
+            a = lc.rstrip("\n").split("\t")
+            b = lm.rstrip("\n").split("\t")
+            n += 1
+            if a[2] != b[1]:
+                bad += 1
+                if len(ex) < 5:
+                    real, model = a[2].split(" "), b[1].split(" ")
+                    k = next((i for i, (p, q) in enumerate(zip(real, model)) if p != q), min(len(real), len(model)))
+                    ex.append({"source": a[3] if len(a) > 3 else "", "events": a[1][:600], "lookup_index": k,
+                               "real_structure": real[k] if k < len(real) else None,
+                               "model_structure": model[k] if k < len(model) else None})
+    st = json.load(open(stats)) if os.path.exists(stats) else {}
+    c.coverage["scope_mechanism_programs"] = n
+    c.coverage["scope_mechanism_lookup_structures_compared"] = st.get("lookup_structures_compared")
+    c.coverage["scope_mechanism_programs_differ"] = bad
+    if bad:
+        c.violation({"kind": "the real lookup structure (live scope stack / captured stacks / parent chain) differs from the machine "
+                             "coq/Model/ScopeImpl.v replaying the same scope events: the tie of lookup_is_lexical to "
+                             "environment.go/closing.go/vm.go is broken (this alone is not a failing input of the property)",
+                     "count": bad, "cases": ex}, no_input=True, tag="scope")
+        return 1
+    return 0
 
 
 def main(argv):
     refsem.run("C03", "c03", argv, [
-        "the reference evaluator coq/Model/RefSem.v (static chains of frames) is the specification of lexical scoping; the scope stack / captured stacks / parent chain of /repo (environment.go:LexicalLookupSymbol, closing.go) are tied to it by the correspondence run on generated programs",
+        "the reference evaluator coq/Model/RefSem.v (static chains of frames) is the specification of lexical scoping; the scope stack / captured stacks / parent chain of /repo (environment.go:LexicalLookupSymbol, closing.go) are modelled by coq/Model/ScopeImpl.v, proved to look names up lexically under a relation preserved by the scope events, and tied to the code by replaying the real VM's scope events on the extracted machine",
+        "the value-level correspondence run on generated programs ties the evaluator as a whole",
         "the step budget of the harness (4000 VM instructions) and the fuel of the model (300) bound the programs compared",
     ], {
         "tco-by-name": lambda r: r.get("defn_rebinds_and_calls_its_own_name") and not r.get("disagrees_also_without_self_tail_call", True),
-    })
+    }, extra=scope_tie)
